@@ -399,7 +399,7 @@ class DGen(progs.Gen):
         if k == 3:
             nm = 'g%d' % self.key()
             w = self.rd(defined)
-            self.emit(ind, 'def %s(p, r=%s):' % (nm, self.rd(defined)))
+            self.emit(ind, 'def %s(p%s, r=%s):' % (nm, ': TY' if r.random() < 0.4 else '', self.rd(defined)))
             if w in self.vars or w in progs.PARAMS:
                 self.emit(ind + 1, 'nonlocal %s' % w)
                 self.emit(ind + 1, '%s = p + r' % w)
